@@ -151,6 +151,7 @@ func main() {
 	replay := flag.String("decisions", "", "run only this decision string (comma separated)")
 	verbose := flag.Bool("v", false, "verbose")
 	smtlog := flag.String("smtlog", "", "log solver input of worker 0")
+	mergeList := flag.String("merge", "default", "comma separated functions to summarise by state merging (default: types.Value comparison methods)")
 	flag.Parse()
 
 	t0 := time.Now()
@@ -195,6 +196,16 @@ func main() {
 	}
 	mainPkg := pkgs[0]
 	intr := buildIntrinsics()
+	mergeFns := map[string]bool{}
+	if *mergeList == "default" {
+		for _, m := range []string{"CompareEquals", "CompareNotEquals", "CompareGreaterThan", "CompareGreaterThanOrEqual", "CompareLessThan", "CompareLessThanOrEqual", "IsNull", "IsInfMax", "IsInfMin"} {
+			mergeFns["(github.com/ryogrid/SamehadaDB/lib/types.Value)."+m] = true
+		}
+	} else if *mergeList != "" && *mergeList != "none" {
+		for _, m := range strings.Split(*mergeList, ",") {
+			mergeFns[m] = true
+		}
+	}
 
 	results := []*EntryResult{}
 	for _, entry := range strings.Split(*entries, ",") {
@@ -240,7 +251,7 @@ func main() {
 				defer sv.Close()
 				ex := &Exec{prog: prog, tc: tc, solver: sv, intr: intr,
 					cfg:       &Config{Unwind: *unwind, MaxSteps: *steps, TimeoutMs: *timeout, SolverBin: *solverBin, Verbose: *verbose, MaxAlts: *maxAlts},
-					funcInstr: map[string]int{}, stubHits: map[string]int{}}
+					funcInstr: map[string]int{}, stubHits: map[string]int{}, mergeFns: mergeFns}
 				for {
 					item, ok := q.pop()
 					if !ok {
@@ -282,7 +293,7 @@ func main() {
 					}
 					switch rec.Outcome {
 					case OutViolation:
-						if len(res.Violations) < 20 {
+						if len(res.Violations) < 3000 {
 							res.Violations = append(res.Violations, rec)
 						}
 					case OutOK:
@@ -291,7 +302,7 @@ func main() {
 						}
 					case OutInfeasible:
 					default:
-						if rec.Violation != nil && len(res.Faults) < 20 {
+						if rec.Violation != nil && len(res.Faults) < 3000 {
 							res.Faults = append(res.Faults, rec)
 						}
 						key := string(rec.Outcome) + ": " + rec.Msg
@@ -343,8 +354,10 @@ func main() {
 		for k, v := range res.Problems {
 			fmt.Fprintf(os.Stderr, "   problem x%d: %s  path=%v\n", v, k, res.ProblemPaths[k])
 		}
-		for _, v := range res.Violations {
-			fmt.Fprintf(os.Stderr, "   VIOLATION %s decisions=%v\n", v.Msg, v.Decisions)
+		for vi, v := range res.Violations {
+			if vi < 5 {
+				fmt.Fprintf(os.Stderr, "   VIOLATION %s decisions=%v\n", v.Msg, v.Decisions)
+			}
 		}
 	}
 	if *out != "" {
